@@ -1,5 +1,5 @@
 CONSTANTS
- NPal = 14
+ NPal = 16
  MaxLen = 3
  CoefIdx = {1, 3, 4, 5, 6}
 SPECIFICATION Spec
